@@ -98,6 +98,113 @@ def _value_of(src):
     return None
 
 
+def _key_expr(e, member):
+    """the key expression of a primitive add / removal on index `member`, or None"""
+    src = e.src
+    def on_member(x):
+        return isinstance(x, ast.Attribute) and x.attr == member
+    if isinstance(src, ast.Assign):
+        for t in src.targets:
+            if isinstance(t, ast.Subscript) and on_member(t.value):
+                return t.slice
+    if isinstance(src, ast.Delete):
+        for t in src.targets:
+            if isinstance(t, ast.Subscript) and on_member(t.value):
+                return t.slice
+    if isinstance(src, ast.Call) and isinstance(src.func, ast.Attribute) and on_member(src.func.value) and src.args:
+        if src.func.attr in ('add', 'remove', 'discard', 'pop', 'setdefault'):
+            return src.args[0]
+    return None
+
+
+def _key_agreement(ctx) -> list[Inst]:
+    """KEY: an index that is filled under `obj.<attr>` is emptied under the same attribute of the object removed:
+    `del D[o.name]` / `D.pop(o.name, None)` against `D[o.full_name] = o` leaves the entry behind (or removes another
+    object's entry)."""
+    prog = ctx.prog
+    adds, rems = {}, {}
+    from ..core import own_nodes
+    from types import SimpleNamespace
+    index_of = {m: gname for gname, g in GROUPS.items() for m in g['index']}
+
+    def member_attr(x):
+        return x.attr if isinstance(x, ast.Attribute) and x.attr in index_of else None
+    # syntactic collection (also stores into a graph / model that the function has just created, which the effect
+    # summaries - rooted at parameters - do not list)
+    for f in prog.all_funcs():
+        if f.module.generated:
+            continue
+        for n in own_nodes(f.node):
+            found = []
+            if isinstance(n, ast.Assign):
+                for t in n.targets:
+                    if isinstance(t, ast.Subscript) and member_attr(t.value):
+                        found.append(('add', member_attr(t.value), t.slice))
+            elif isinstance(n, ast.Delete):
+                for t in n.targets:
+                    if isinstance(t, ast.Subscript) and member_attr(t.value):
+                        found.append(('remove', member_attr(t.value), t.slice))
+            elif isinstance(n, ast.Call) and isinstance(n.func, ast.Attribute) and member_attr(n.func.value) and n.args:
+                if n.func.attr in ('add', 'setdefault'):
+                    found.append(('add', member_attr(n.func.value), n.args[0]))
+                elif n.func.attr in ('remove', 'discard', 'pop'):
+                    found.append(('remove', member_attr(n.func.value), n.args[0]))
+            for (c, m, k) in found:
+                e = SimpleNamespace(src=n, text=stmt_text(n, 80), lineno=n.lineno)
+                (adds if c == 'add' else rems).setdefault((index_of[m], m), []).append((f, e, k))
+    out = []
+    for (gname, member), lst in sorted(rems.items()):
+        g = GROUPS[gname]
+        attrs = {k.attr for (_f, _e, k) in adds.get((gname, member), [])
+                 if isinstance(k, ast.Attribute) and isinstance(k.value, ast.Name)}
+        if len(attrs) != 1:
+            continue          # keyed by something else than one attribute of the stored object: no rule instance
+        want = next(iter(attrs))
+        # adds under another key than the stored object's own attribute: an alias entry that the removal (which deletes
+        # under .<want> of the object) never finds
+        for (f, e, k) in adds.get((gname, member), []):
+            if isinstance(k, ast.Attribute) and isinstance(k.value, ast.Name) and k.attr == want:
+                continue
+            construct = f'{gname}: KEY {g["cls"]}.{member} gets entries under the stored object\'s .{want} only'
+            stored = e.src.value if isinstance(e.src, ast.Assign) else None
+            differs = False
+            if isinstance(stored, ast.Name):
+                ktxt = stmt_text(k)
+                for t in ast.walk(f.node):
+                    if isinstance(t, ast.If) and isinstance(t.test, ast.Compare) and len(t.test.ops) == 1 \
+                            and isinstance(t.test.ops[0], ast.NotEq) and any(x is e.src for b in t.body for x in ast.walk(b)):
+                        sides = {stmt_text(t.test.left), stmt_text(t.test.comparators[0])}
+                        if sides == {ktxt, f'{stored.id}.{want}'}:
+                            differs = True
+            if differs:
+                out.append(Inst(
+                    RULE, f.short, construct, 'violation',
+                    msg=(f"'{e.text}' adds an entry under '{stmt_text(k)}' exactly when that is NOT the object's .{want}: "
+                         f"the index holds keys that no object carries, removal (which deletes under .{want}) never "
+                         f"deletes them, and a lookup returns objects that are no longer in {g['cls']}.{g['primary']}"),
+                    file=f.module.relpath, line=e.lineno, props=g['props']))
+            else:
+                out.append(Inst(RULE, f.short, construct, 'unproven', msg=f"key '{stmt_text(k)}' not of the form obj.{want}",
+                                file=f.module.relpath, line=e.lineno, props=g['props'], nontrivial=False))
+        for (f, e, k) in lst:
+            construct = f'{gname}: KEY {g["cls"]}.{member} is emptied under the attribute it is filled under'
+            if isinstance(k, ast.Attribute) and isinstance(k.value, ast.Name):
+                if k.attr == want:
+                    out.append(Inst(RULE, f.short, construct, 'ok', msg=f"'{e.text}' uses .{want}",
+                                    file=f.module.relpath, line=e.lineno, props=g['props']))
+                else:
+                    out.append(Inst(
+                        RULE, f.short, construct, 'violation',
+                        msg=(f"'{e.text}' removes the entry under '{stmt_text(k)}', but {g['cls']}.{member} is filled "
+                             f"under '.{want}' of the stored object: the entry of the removed object stays behind (a "
+                             f"tolerant pop hides the miss) or another object's entry is removed"),
+                        file=f.module.relpath, line=e.lineno, props=g['props']))
+            else:
+                out.append(Inst(RULE, f.short, construct, 'unproven', msg=f"key '{stmt_text(k)}' not of the form obj.attr",
+                                file=f.module.relpath, line=e.lineno, props=g['props'], nontrivial=False))
+    return out
+
+
 def run(ctx) -> list[Inst]:
     prog, an = ctx.prog, ctx.an
     insts: list[Inst] = []
@@ -143,6 +250,8 @@ def run(ctx) -> list[Inst]:
                                  f"equivalent {want} of {g['cls']}.{m} on the same object follows it "
                                  f"on every normally returning path"),
                             file=f.module.relpath, line=e.lineno, props=g['props']))
+    # ------------------------------------------------------------------ KEY
+    insts += _key_agreement(ctx)
     # ------------------------------------------------------------------ RESET
     for c in prog.classes.values():
         init = c.methods.get('__init__')
